@@ -159,3 +159,20 @@ func (d *SimDriver) CloseConns() {
 	d.conn.Close()
 	d.ps.Close()
 }
+
+// McastBarrier waits until every multicast handed to the buffering listener
+// so far (directly or through the mux) has been passed on to the PFCP server:
+// a sentinel report follows them through the listener's hand-over.
+func (d *SimDriver) McastBarrier() bool {
+	for len(d.sh.ch) > 0 {
+		<-d.sh.ch
+	}
+	top := AN(KRepTop, AN(KUR, A32(KUrURRID, SentURR), A32(KUrTrig, 0), A64(KUrSEID, SentSEID)))
+	d.G.VerifBuff().ServeMsg(&nl.Msg{Body: append([]byte{0, 0, 0, 0}, top.Encode()...)})
+	select {
+	case <-d.sh.ch:
+		return true
+	case <-time.After(20 * time.Second):
+		return false
+	}
+}
